@@ -99,11 +99,11 @@ func (u *Unit) callEffect(fr *Frame, c *ssa.CallCommon) effect {
 			return effNone
 		}
 		for _, f := range ct.Frame {
-			if f == "allocates" || strings.Contains(f, "[") || strings.HasPrefix(f, "~") {
+			if strings.Contains(f, "[") || strings.HasPrefix(f, "~") || strings.HasPrefix(f, "*") || (strings.HasPrefix(f, "@")) {
 				return effAll
 			}
 		}
-		return effFrame
+		return effFrame // ("allocates" is reported by callFrameHeaps as the pseudo heap "@allocates")
 	}
 	if fn := c.StaticCallee(); fn != nil && u.canInline(fn) {
 		// conservative: an inlined body may write anything it can reach
@@ -192,6 +192,10 @@ func (u *Unit) callFrameHeaps(fr *Frame, c *ssa.CallCommon) []string {
 	if ct := u.W.Contracts[name]; ct != nil {
 		var hs []string
 		for _, f := range ct.Frame {
+			if f == "allocates" {
+				hs = append(hs, "@allocates")
+				continue
+			}
 			hs = append(hs, u.resolveFrameItem(ct, f)...)
 		}
 		return hs
